@@ -138,10 +138,10 @@ pub fn posix_alphabet(level: u8) -> Vec<String> {
     let stds: &[(&str, &str)] = &[("AAA", "12"), ("NST", "3:30"), ("UTC", "0"), ("<+0545>", "-5:45"), ("<+13>", "-13")];
     let dsts: &[&str] = &["", "-0:30", "+1"]; // "" = default +1h; explicit offsets are absolute, patched below
     let days_full: &[&str] = &[
-        "J1", "J59", "J60", "J365", "0", "58", "59", "364", "365", "M1.1.0", "M3.2.0", "M3.5.0", "M10.5.0",
+        "J1", "J59", "J60", "J365", "0", "58", "59", "364", "M1.1.0", "M3.2.0", "M3.5.0", "M10.5.0",
         "M11.1.0", "M12.5.6", "M2.5.3",
     ];
-    let days_small: &[&str] = &["J1", "J60", "J365", "0", "59", "365", "M1.1.0", "M3.2.0", "M10.5.0", "M12.5.6"];
+    let days_small: &[&str] = &["J1", "J60", "J365", "0", "59", "364", "M1.1.0", "M3.2.0", "M10.5.0", "M12.5.6"];
     let times_full: &[&str] = &["", "/0", "/24", "/26", "/-1", "/167", "/-167", "/1:30:15"];
     let times_small: &[&str] = &["", "/0", "/24", "/-1", "/167", "/-167"];
     let (days, times) = match level {
@@ -179,6 +179,23 @@ pub fn posix_alphabet(level: u8) -> Vec<String> {
             }
         }
     }
+    // Keep only strings whose per-year and timeline readings coincide away from
+    // year boundaries: start and end at least 16 days apart (cyclically) in
+    // leap and non-leap years, so that rule times of up to +-7 days can never
+    // make the two transitions of a year swap or touch. (Strings violating this
+    // have no agreed meaning: POSIX describes each year separately.)
+    out.retain(|s| {
+        let Ok(tz) = rtz::parse_posix(s.as_bytes()) else { return true };
+        if tz.dst.is_none() {
+            return true;
+        }
+        [2023i64, 2024, 2025].iter().all(|&y| {
+            let (a, b) = tz.year_transitions(y).unwrap();
+            let d = (a - b).abs();
+            let ylen = refmodel::cal::days_in_year(y) * 86400;
+            d >= 16 * 86400 && ylen - d >= 16 * 86400
+        })
+    });
     out
 }
 
